@@ -3218,6 +3218,50 @@ pub fn run(args: &Args, out: &mut Out) {
             10 => output_set(&mut rng, &mut hist),
             _ => random_set(&mut rng, &mut hist),
         };
+        if i % 24 == 4 {
+            // the instantiation registry: a template over two type parameters that every call instantiates, called with
+            // argument tuples that share the first / the later argument types
+            let arity = rng.range(2, 3) as usize;
+            let centre2: Vec<Ty> = (0..arity).map(|_| grid_ty(&mut rng)).collect();
+            let params: Vec<Param> = (0..arity)
+                .map(|k| {
+                    let tk = (k % 2) as u8;
+                    let layer = match (rng.below(4), centre2[k].layer) {
+                        (0, Layer::Vector(_, n)) => Layer::TVec(tk, n),
+                        _ => Layer::TVar(tk),
+                    };
+                    Param { io: Io::In, ty: Ty { mods: Mods(0), layer } }
+                })
+                .collect();
+            let mut cs = vec![Cand { id: 0, non_default: arity, params, tkinds: vec![true, true] }];
+            for _ in 0..rng.range(0, 2) {
+                let params: Vec<Param> = centre2.iter().map(|c| Param { io: random_io(&mut rng), ty: related_ty(&mut rng, *c) }).collect();
+                if !cs.iter().any(|c| c.params == params) {
+                    cs.push(Cand { id: cs.len() as u32, non_default: arity, params, tkinds: Vec::new() });
+                }
+            }
+            cands = cs;
+            let base: Vec<ETy> = centre2.iter().map(|c| ETy { lvalue: true, ty: *c }).collect();
+            let mut later = base.clone();
+            for k in 1..arity {
+                later[k] = ETy { lvalue: true, ty: grid_ty(&mut rng) };
+            }
+            let mut first = base.clone();
+            first[0] = ETy { lvalue: true, ty: grid_ty(&mut rng) };
+            let mut items: Vec<Item> = Vec::new();
+            for k in (1..cands.len()).rev() {
+                let j = rng.below(k as u64 + 1) as usize;
+                cands.swap(k, j);
+            }
+            for c in &cands {
+                items.push(Item::Decl(0, c.clone()));
+                for t in [&base, &later, &first, &base] {
+                    items.push(Item::Site(0, t.clone(), Vec::new()));
+                }
+            }
+            r.seq_case(&items, &SeqPath::Free, out);
+            continue;
+        }
         if kind == 11 {
             // the compiler's own overloads of an intrinsic, joined by user overloads one at a time
             let name = rng.pick(&names).clone();
